@@ -32,8 +32,8 @@ class AutoregressiveBisectionInverter(eqx.Module):
     upper: Real[Array, ""] = eqx.field(
         default_factory=lambda: 10.0, converter=jnp.asarray
     )
-    tol: float = 1e-7
-    max_iter: int = 200
+    tol: float = eqx.field(default=1e-7, converter=float)
+    max_iter: int = eqx.field(default=200, converter=int)
 
     def __check_init__(self):
         if not self.lower < self.upper:
